@@ -522,3 +522,114 @@ Proof.
   eapply hoare_bind; [apply hoare_hs, hs_soil_dispersers_from|]. intros n.
   apply hoare_mrepeat. eapply hoare_bind; [apply multi_disperser_to_WI|]. intros ?u. apply hoare_ro, ro_ret.
 Qed.
+
+(* ---------- replacing a whole host ---------- *)
+Lemma replace_host P hs k h h' hs' :
+  hosts_inv P hs -> nth_error hs k = Some h -> rset hs k h' = Ok hs' -> Forall P (hp_cells h') ->
+  hosts_inv P hs' /\ hosts_hq hs' = hosts_hq hs - sum_hq (hp_cells h) + sum_hq (hp_cells h').
+Proof.
+  intros HI Hk R Ph.
+  destruct (rset_spec _ _ _ _ R) as (pre & old & post & -> & -> & L).
+  rewrite <- L, nth_error_mid in Hk. injection Hk as ->.
+  unfold hosts_inv in *. apply Forall_app in HI as [HA HB]. inversion HB as [|? ? _ HB']; subst.
+  split; [apply Forall_app; split; [assumption|constructor; assumption]|].
+  rewrite !hosts_hq_app. cbn [hosts_hq]. lia.
+Qed.
+
+Lemma set_host_WI lv q k h h' w t u w' t' delta :
+  WI lv q w -> nth_error (w_hosts w) k = Some h -> Forall (cinv lv) (hp_cells h') ->
+  sum_hq (hp_cells h') = sum_hq (hp_cells h) - delta ->
+  set_host k h' w t = Ok (u, w', t') -> WI lv (q - delta) w'.
+Proof.
+  intros [HI Hq] Hk Ph Hs H. apply set_host_inv in H as (_ & hs & R & ->).
+  destruct (replace_host _ _ _ _ _ _ HI Hk R Ph) as (A & B).
+  unfold WI, winv, whq, with_hosts; cbn [w_hosts]. split; [assumption|]. unfold whq in Hq. lia.
+Qed.
+
+(* mapping a partial function over the cells of a host *)
+Lemma map_result_spec (F : cell -> result cell) : forall l l',
+  fold_right (fun c acc => do a <- acc; do c' <- F c; Ok (c' :: a)) (Ok []) l = Ok l' ->
+  Forall2 (fun c c' => F c = Ok c') l l'.
+Proof.
+  induction l as [|c r IH]; intros l' H; cbn [fold_right] in H.
+  - injection H as <-. constructor.
+  - destruct (fold_right _ _ r) as [a|] eqn:E; [|discriminate]. cbn [bind] in H.
+    destruct (F c) as [c'|] eqn:Ec; [|discriminate]. cbn [bind] in H. injection H as <-.
+    constructor; [assumption|apply IH; reflexivity].
+Qed.
+
+Lemma Forall2_cells lv (R : cell -> cell -> Prop) l l' :
+  (forall c c', cinv lv c -> R c c' -> cinv lv c' /\ hq c' = hq c) ->
+  Forall2 R l l' -> Forall (cinv lv) l -> Forall (cinv lv) l' /\ sum_hq l' = sum_hq l.
+Proof.
+  intros HR H. induction H as [|c c' r r' Hc Hr IH]; intros HF; [split; [constructor|reflexivity]|].
+  inversion HF as [|? ? Pc Pr]; subst. destruct (HR _ _ Pc Hc) as (A & B). destruct (IH Pr) as (C & D).
+  split; [constructor; assumption|]. cbn [sum_hq]. lia.
+Qed.
+
+Lemma winv_host P w k h : winv P w -> nth_error (w_hosts w) k = Some h -> Forall P (hp_cells h).
+Proof.
+  intros HI Hk. unfold winv, hosts_inv in HI. rewrite Forall_forall in HI. apply HI. eapply nth_error_In; eauto.
+Qed.
+
+(* host_pool.step_forward(step) *)
+Theorem act_step_forward_WI lv q g step : hoare (WI lv q) (act_step_forward g step) (fun _ w => WI lv q w).
+Proof.
+  unfold act_step_forward. apply all_hosts_WI. intros k w t a w' t' HW H. binv.
+  match goal with E : get_host _ _ _ = Ok _ |- _ => apply get_host_inv in E as (-> & -> & Hk) end.
+  match goal with E : fold_right _ _ _ = Ok _ |- _ => apply map_result_spec in E; rename E into HF end.
+  destruct (Forall2_cells lv _ _ _ (fun c c' Pc Hc =>
+     let '(conj I0 (conj Hq (conj IM (conj IL _)))) := step_forward_spec _ _ _ _ _ (cinv_Inv0 _ _ Pc) Hc in
+     conj (cinv_intro _ _ _ Pc I0 IM IL) Hq) HF (winv_host _ _ _ _ (proj1 HW) Hk)) as (A & B).
+  replace q with (q - 0) by lia.
+  eapply (set_host_WI lv q k _ (mkhp _ _)); [exact HW|exact Hk|cbn [hp_cells]; exact A| |eassumption].
+  cbn [hp_cells]. lia.
+Qed.
+
+(* SoilPool::next_step *)
+Lemma act_soil_next_WI lv q w : WI lv q w -> WI lv q (act_soil_next w).
+Proof. unfold act_soil_next. destruct (w_soil w); auto. Qed.
+
+(* ---- mortality ---- *)
+Definition pht_ok (h : hostcfg) : Prop :=
+  match h_pht h with
+  | Some (_, rate, lag) => (0 <= rate <= 1)%Q /\ 0 <= lag
+  | None => True
+  end.
+Definition cfg_ok (g : config) : Prop :=
+  Forall pht_ok (g_hosts g) /\ (0 <= g_leaving_pct g <= 1)%Q.
+
+Lemma host_cfg_ok g k w t hc w' t' : cfg_ok g -> host_cfg g k w t = Ok (hc, w', t') -> pht_ok hc /\ w' = w.
+Proof.
+  intros [Hg _] H. unfold host_cfg in H. apply lift_inv in H as (R & -> & _). apply rget_Some in R.
+  split; [|reflexivity]. rewrite Forall_forall in Hg. apply Hg. eapply nth_error_In; eauto.
+Qed.
+
+Theorem act_mortality_WI lv q g : cfg_ok g -> hoare (WI lv q) (act_mortality g) (fun _ w => WI lv q w).
+Proof.
+  intros Hg. unfold act_mortality. eapply hoare_bind.
+  - apply for_suitable_WI. intros r c i. apply all_hosts_WI. intros k w t a w' t' HW H.
+    apply bind_inv in H as (hc & s1 & t1 & E & H). apply (host_cfg_ok _ _ _ _ _ _ _ Hg) in E as (Hp & ->).
+    unfold pht_ok in Hp. destruct (h_pht hc) as [[[sus rate] lag]|]; [|discriminate].
+    destruct Hp as (Hr & Hl). binv.
+    match goal with Hm : apply_mortality ?c0 _ _ = Ok ?c', Hs : set_cell _ _ _ _ _ = Ok _ |- _ =>
+      pose proof (winv_cell _ _ _ _ _ _ (proj1 HW) Hk Hi) as Pc;
+      destruct (apply_mortality_Inv0 _ _ _ _ (cinv_Inv0 _ _ Pc) Hr Hl Hm) as (I0 & Hq & _ & _ & _ & _ & _ & _ & _ & IM);
+      assert (Pc' : cinv lv c') end.
+    { split; [assumption|]. destruct lv; [exact I| |apply IM; apply Pc].
+      destruct Pc as [P0 PL]. match goal with Hm : apply_mortality _ _ _ = Ok _ |- _ =>
+        exact (proj1 (proj2 (proj2 (apply_mortality_spec _ _ _ _ P0 PL Hr Hl Hm)))) end. }
+    match goal with Hs : set_cell _ _ ?c' _ _ = Ok _ |- _ =>
+      destruct (update_cell_WI lv q k i _ c' 0 _ _ _ _ _ _ HW Hk Hi Pc' ltac:(lia) Hs) as (A & _) end.
+    replace (q - 0) with q in A by lia. exact A.
+  - intros u. apply all_hosts_WI. intros k w t a w' t' HW H. binv.
+    match goal with E : get_host _ _ _ = Ok _ |- _ => apply get_host_inv in E as (-> & -> & Hk) end.
+    replace q with (q - 0) by lia. eapply (set_host_WI lv q k _ (mkhp _ _)); [exact HW|exact Hk| | |eassumption]; cbn [hp_cells].
+    + pose proof (winv_host _ _ _ _ (proj1 HW) Hk) as HF. clear - HF.
+      induction HF as [|c r Pc _ IH]; cbn [map]; constructor; [|exact IH].
+      destruct (rotate_mortality_spec c (cinv_Inv0 _ _ Pc)) as (I0 & _ & IM & IL & _).
+      exact (cinv_intro _ _ _ Pc I0 IM IL).
+    + pose proof (winv_host _ _ _ _ (proj1 HW) Hk) as HF. clear - HF.
+      induction HF as [|c r Pc _ IH]; cbn [map sum_hq]; [lia|].
+      destruct (rotate_mortality_spec c (cinv_Inv0 _ _ Pc)) as (_ & Hq & _). lia.
+Qed.
